@@ -7,11 +7,11 @@ import "context"
 // Enabled reports whether the simulation hooks are compiled in.
 const Enabled = false
 
-func Step(ctx context.Context, ast, env interface{})         {}
-func Yield(point string, obj interface{})                    {}
-func Await(point string, obj interface{}, ready func() bool) {}
-func BeforeBlock(point string, obj interface{}) interface{}  { return nil }
-func AfterBlock(handle interface{}, which string)            {}
-func Spawn(obj interface{}) interface{}                      { return nil }
-func TaskStart(handle interface{})                           {}
-func TaskEnd(handle interface{})                             {}
+func Step(ctx context.Context, ast, env interface{})                             {}
+func Yield(point string, obj interface{})                                        {}
+func Await(point string, obj interface{}, ready func() bool)                     {}
+func BeforeBlock(ctx context.Context, point string, obj interface{}) interface{} { return nil }
+func AfterBlock(handle interface{}, which string)                                {}
+func Spawn(obj interface{}) interface{}                                          { return nil }
+func TaskStart(handle interface{})                                               {}
+func TaskEnd(handle interface{})                                                 {}
